@@ -487,16 +487,11 @@ def _balanced_kind(case, lab_eff, folds, has_nan):
     fvals = ref.first_appearance(folds)
     if len(fvals) < 2:
         return None
-    per = None
     for lab in order:
-        for f in fvals:
-            c = sum(1 for i in range(len(folds)) if lab_eff[i] == lab and folds[i] == f)
-            if c == 0 or (per is not None and False):
-                return None
-            if method == 'poisson_cv' and c != 1:
-                return None
         cnts = [sum(1 for i in range(len(folds)) if lab_eff[i] == lab and folds[i] == f) for f in fvals]
-        if len(set(cnts)) != 1:
+        if min(cnts) == 0 or len(set(cnts)) != 1:
+            return None
+        if method == 'poisson_cv' and cnts[0] != 1:
             return None
     return 'fold-balanced'
 
@@ -608,7 +603,6 @@ def _run_structured(case, ctx):
     # ---- single-pair helper
     full = None
     if ok and judged:
-        k = len(want['order'])
         full = got[1]
     _helper(ctx, case, X, rows, lab_eff, folds, want, prec, crossval, full)
     if not ok:
@@ -679,17 +673,12 @@ def _run_in_child(cases, ctx):
     if p.returncode != 0 or not line:
         raise _runner.HarnessError('C15 child process failed (%d): %s' % (p.returncode, p.stderr[-2000:]))
     res = json.loads(line[0][len('C15CHILD'):])
-    for case in cases[:res['evaluations']]:
-        pass
     ctx.evaluations += res['evaluations']
     for i in range(res['distinct']):
         ctx.distinct.add(_runner.h64(['child', i, cases[0]]))
     ctx.last_case = cases[-1]
     ctx.count('executed_in_child_process', res['evaluations'])
-    for key, v in res['counters'].items():
-        if key != 'helper_calls':
-            continue
-        ctx.count(key, v)
+    ctx.count('helper_calls', res['counters'].get('helper_calls', 0))
     for sig, f in res['fails'].items():
         for _ in range(f['count']):
             ctx.fail(sig, f['case'], f['msg'])
